@@ -147,11 +147,11 @@ var All = []*Prop{
 	},
 	{
 		ID:    "C15",
-		Rules: []*core.Rule{rules.InterruptSync, rules.Poll, rules.UncatchableClose, rules.TryPair, rules.Boundary},
+		Rules: []*core.Rule{rules.InterruptSync, rules.Poll, rules.UncatchableClose, rules.TryPair, rules.Boundary, rules.ScopedState, rules.PairDefer, rules.ExitAgree},
 		Explanation: "R-INTERRUPTSYNC decides the race-freedom clause for the engine's own accesses: vm.interrupted is only touched through sync/atomic, vm.interruptVal only between interruptLock.Lock/Unlock, the value is published before the flag is raised, the flag is raised only in vm.Interrupt and cleared only in vm.ClearInterrupt which is reached only from the public API and leaveAbrupt (so it stays raised for the whole unwinding), and the transitive callees of Runtime.Interrupt/ClearInterrupt touch no other runtime state. " +
 			"R-POLL: every instruction-dispatch loop loads the flag atomically on each iteration, unconditionally, before the dispatch, and the loaded value gates the dispatch. " +
 			"R-UNCATCHABLECLOSE: code that closes iterators on an exceptional path is guarded by a classification that excludes uncatchable payloads ('run no further catch or finally'). " +
-			"R-TRYPAIR/R-BOUNDARY/R-SCOPEDSTATE (see C03): the runtime is reusable afterwards, queued jobs are dropped, no activation marker stays set.",
+			"R-TRYPAIR/R-BOUNDARY/R-SCOPEDSTATE/R-PAIRDEFER/R-EXITAGREE (see C03): the runtime is reusable afterwards, queued jobs are dropped, no activation marker or stale register stays set.",
 		Technique:  "atomic/lockset/ordering/who-may-write rules and effect containment over the call graph; dominance of the poll in dispatch loops; controlling-condition classification of cleanup calls",
 		DesignRef:  "DESIGN.md section 4, C15",
 		NotCovered: "wall-clock promptness inside a single long-running native builtin (one instruction), interrupt-while-idle semantics beyond the boundary rule, races inside dependencies",
@@ -174,7 +174,7 @@ var All = []*Prop{
 	},
 	{
 		ID:    "C13",
-		Rules: []*core.Rule{rules.ExportCycle, rules.ExportCache, rules.WrapperTxn},
+		Rules: []*core.Rule{rules.ExportCycle, rules.ExportCache, rules.WrapperTxn, rules.SpareCap},
 		Explanation: "Clause decided: 'exporting a script-built object graph preserves sharing and cycles within one export' and, as its safety half, 'no export recursion aborts the host'. R-EXPORTCYCLE enumerates every implementation of objectImpl.export / exportToMap / exportToArrayOrSlice (and the generic helpers); each one that contains a recursion point into the object's own contents (exportValue, X.self.export, toReflectValue) must (a) for the untyped variant look its own object up with ctx.get and recurse only on the miss edge, (b) register its own object with ctx.put/putTyped on every path before each recursion point (dominance); typed variants must only be invoked on the miss edge of ctx.getTyped. Pure pass-through to another object's implementation is recognised as delegation. " +
 			"R-EXPORTCACHE: inside the cache itself an image once recorded is never forgotten - in put/putTyped a freshly made per-type table is stored into ctx.cache[key] only on the miss edge of the lookup or after the previous entry was copied into it. " +
 			"R-WRAPPERTXN ('host values wrapped by ToValue are live views'): overwriting a slot of a reflect-backed struct/array whose wrapper was handed out is detach -> convert -> (drop from cache | re-attach): on the err != nil edge of toReflectValue the detached wrapper is re-attached with setReflectValue, and the cache entry is removed only under err == nil.",
@@ -184,12 +184,14 @@ var All = []*Prop{
 	},
 	{
 		ID:    "C03",
-		Rules: []*core.Rule{rules.TryPair, rules.Boundary, rules.CtxFields, rules.ScopedState},
+		Rules: []*core.Rule{rules.TryPair, rules.Boundary, rules.CtxFields, rules.ScopedState, rules.PairDefer, rules.ExitAgree},
 		Explanation: "goja unwinds by Go panics; handleThrow stops at the first tryPanicMarker frame for payloads it does not convert and trusts the frame's owner to pop it. " +
 			"R-TRYPAIR: every function that acquires a marker frame (pushTryFrame(tryPanicMarker,..) or a wrapper that hands the frame to its caller) registers popTryFrame in a defer before any other call; frames turned into markers in place are tagged and skipped by handleThrow for uncatchable payloads. " +
 			"R-BOUNDARY: in each recover handler that converts an uncatchable payload into an error return, the uncatchable branch reaches leaveAbrupt() guarded only by the empty call stack, other payloads are re-panicked, every normal return passes leave()/clearStack(), and leaveAbrupt drops the job queue and clears the interrupt flag. " +
 			"R-CTXFIELDS: the register set saved by saveCtx, restored by restoreCtx and by handleThrow equals the fields of `context`; every auxiliary stack of vm is snapshotted by pushTryFrame and truncated on unwinding; suspend/resume move exactly the per-activation stacks and re-base exactly the positional tryFrame fields. All sets are derived from the struct declarations on each run. " +
-			"R-SCOPEDSTATE: vm fields that name the activation being run for the duration of one Go call (table: curAsyncRunner) are reset by a deferred closure registered before any further call, so that a panic-borne unwind (interrupt, stack overflow, host panic) cannot leave them set on the idle Runtime.",
+			"R-SCOPEDSTATE: vm fields that name the activation being run for the duration of one Go call (table: curAsyncRunner) are reset by a deferred closure registered before any further call, so that a panic-borne unwind (interrupt, stack overflow, host panic) cannot leave them set on the idle Runtime. " +
+			"R-PAIRDEFER: the runtime-level acquire/release pairs of a confirmed table (pushToStringStack/popFromStringStack, AsyncContextTracker.Resumed/Exited) release in a defer registered before any further call; a deferred vm.popCtx() in a recovering boundary function runs only if the matching pushCtx() completed. " +
+			"R-EXITAGREE: leaveAbrupt() resets at least the vm/Runtime fields that the normal outermost exit (RunProgram's tail and leave()) resets.",
 		Technique:  "panic-safe acquire/release pairing (defer-before-next-call), must-pass-through on the CFG with controlling-condition classification, writer/reader field-set agreement derived from struct declarations",
 		DesignRef:  "DESIGN.md section 4, C03",
 		NotCovered: "that the restored values are the right ones (offset arithmetic), call-depth limit arithmetic, effects of a failed k-th callback inside a builtin on that builtin's own data, 'behaves exactly as a runtime that executed only the completed effects' as a whole",
